@@ -14,9 +14,26 @@ def exec_one(unit, prefix, expect=None):
     return simcheck.exec_with(JUDGES, unit, prefix, expect, need_base=NEED_BASE)
 
 
+def fault_units(tier):
+    """The stream must stay a valid history when a checkpoint call is rejected (and Lambda retries)."""
+    from vcheck.sim import programs as P
+    units = []
+    cap = 20_000 if tier == "quick" else 400_000
+    long_step = {"name": "Slong", "seq": [{"k": "step", "fn": {"sleep": 1.5, "then": {"ret": "l"}}}, {"k": "step", "fn": {"ret": 2}}]}
+    long_child = {"name": "Hlong", "seq": [{"k": "child", "body": [{"k": "step", "fn": {"sleep": 1.5, "then": {"ret": "l"}}}]}]}
+    progs = [long_step, long_child] + [P.program(n) for n in (("S", "S"), ("H",), ("W", "S"), ("P",), ("Sd",), ("N",), ("C", "S"))]
+    for p in progs:
+        for lat in (0.0, 0.05):
+            units.append(({"program": p, "cfg": {"env_kinds": ["fault"], "faults": ["5xx", "429", "4xx"], "api_latency": lat}},
+                          {"fault": 1, "total": 1} if tier == "quick" else {"fault": 2, "total": 2}, cap))
+    return units
+
+
 def run(ctx):
-    units = simcheck.standard_space(ctx.tier)
-    return simcheck.run_check(ctx, MOD, units, BOUNDS)
+    units = simcheck.standard_space(ctx.tier) + fault_units(ctx.tier)
+    return simcheck.run_check(ctx, MOD, units, BOUNDS + "; 9 programs (incl. step/child bodies that outlast the batch window, so that "
+                              "an asynchronous START travels alone) with every checkpoint call rejected (5xx/429/4xx), with and "
+                              "without API latency, followed by Lambda's retry")
 
 
 def replay(rep):
